@@ -73,7 +73,7 @@ EnumSchema(n) ==
            [j \in DOMAIN out |->
               [type |-> "object",
                properties |-> (VarName(j) :> EdgeSchema(out[j])),
-               required |-> {VarName(j)},
+               required |-> <<VarName(j)>>,
                additionalProperties |-> SFalse]])
 
 DefSchema(n) == CASE kinds[n] = "struct" -> StructSchema(n)
